@@ -159,6 +159,20 @@ impl Check for C09Shuttle {
         true
     }
 
+    fn declared_probes(&self) -> Vec<&'static str> {
+        vec![
+            "fault.child-fail",
+            "fault.schedule",
+            "probe.children-never-attempted-after-an-error",
+            "probe.empty-population",
+            "probe.jobs",
+            "probe.map_init-calls",
+            "probe.steps-that-returned-an-error",
+            "probe.two-children-failed-in-one-generation",
+            "probe.two-or-more-makers-overlapped-in-time",
+        ]
+    }
+
     fn rule(&self) -> String {
         "shuttle leg: Generation<Vec<Ind>, Maker>::par_next (unchanged generation.rs compiled against the rayon stand-in) for populations \
          0..=8, 1-3 steps, child-maker failures at enumerated arrival positions (none / one at each position / two / all) followed by a \
